@@ -227,6 +227,14 @@ Definition blk_other_majority : blk :=
     (Present true (Some [st1; st2])) (Present true (Some (mkTree [10%N; 11%N] 40%N true)))
     (Present true (Some (vp_i, mkVp true true 7 0 (Some 99%N)))).
 
+(* ACCEPT voteproof that is a finished DRAW (no majority at all): rejected by both since fix d462c20 *)
+Definition blk_accept_draw : blk :=
+  mkBlk true 7 1%N 2%N (Some 30%N) (Some 40%N)
+    (Present true (Some good_pr))
+    (Present true (Some [op1])) (Present true (Some (mkTree [20%N] 30%N true)))
+    (Present true (Some [st1; st2])) (Present true (Some (mkTree [10%N; 11%N] 40%N true)))
+    (Present true (Some (vp_i, mkVp true true 7 0 None))).
+
 Definition stored_but_invalid (b : blk) : Prop :=
   map_valid b = true /\ importer_accepts b = true /\ validator_accepts b = false.
 
